@@ -30,7 +30,9 @@ PROP = dict(
          "Exhaustive part: every header of <=2 ranges (one or two header lines; <=3 ranges on one line in thorough) over {a/x,a/y,a/*,b/x,*/*} x "
          "5 (7) weights x every offer list of <=2 of 5 offers (duplicates, parameters) x default present/absent, also through the API; "
          "every coding header of <=2 codings x every coding list; a syntax grid (parameters before/after q incl. quoted values and a "
-         "name ending in q, OWS placements, q spellings .5 / 0.5 / 1. / 0.250) x following ranges. Seeded part: random headers of up to 6 "
+         "name ending in q, OWS placements, q spellings .5 / 0.5 / 1. / 0.250) x following ranges; header lines without ranges (empty or white "
+         "space only) before, between and after the lines that carry ranges; through the API every operation shape: methods GET / POST / DELETE / "
+         "HEAD x declared success response 200 / 201 / 204 / default-only. Seeded part: random headers of up to 6 "
          "ranges on 1-3 lines with 0-80 fractional q digits, random offer lists, a quarter through the API; arbitrary bytes (totality "
          "and membership only). Non-trivial: >=2 ranges and some negotiation returned an offer (not the default); distinct by hash.",
     exhaustive=True,
